@@ -319,6 +319,13 @@ fn video_verdict(st: &ContractState, pts: f64, dts: Option<f64>, data: &[u8], ke
             either = Some("timestamp beyond 2^53 ticks");
             maybe.extend([EV::NonIncreasingDts, EV::NonIncreasingVideoPts, EV::Io]);
         }
+        // composition offset beyond the signed 32-bit field: C16 demands an error from some call,
+        // the documented contract is silent on which; never judged here
+        let off = pt.exact as i128 - dt.exact as i128;
+        if off.abs() >= (1i128 << 31) - 2 {
+            either = Some("composition offset at or beyond the 32-bit field");
+            maybe.push(EV::Io);
+        }
         // decode order
         if let (Some(prev_t), Some(prev_s)) = (st.last_video_dts_ticks, st.last_video_dts_secs) {
             let (plo, phi) = lo_hi(prev_t, st.last_video_dts_alt);
